@@ -47,6 +47,7 @@ func (rn *runner) returnMethods(s *sinfo) []retMethod {
 // changes and converts THAT record; the original, unchanged record's Go object must still hold the original values
 // (observed by a method called on the original record, which converts nothing because an object is attached).
 func (rn *runner) genAlias(g *gen, s *sinfo) (*rnode, []hstep) {
+	g.noWhole = true
 	root := g.record(s, "top", 0)
 	// every struct pointer a Get method returns must be set
 	for _, rm := range rn.returnMethods(s) {
@@ -133,6 +134,7 @@ func (rn *runner) hasSelf(n *rnode) bool {
 // the script repairs the record with hset, later conversions (explicit, as argument, or implicit as receiver of a
 // method) must succeed and show the current fields — a failed conversion leaves nothing behind.
 func (rn *runner) genHistory(g *gen, s *sinfo) (*rnode, []hstep) {
+	g.noWhole = true
 	root := g.record(s, "top", 0)
 	usable := func(n *rnode) []det {
 		var ds []det
